@@ -5,6 +5,8 @@ import (
 	"errors"
 	"fmt"
 	"io"
+	"strconv"
+	"strings"
 
 	"github.com/Tnze/go-mc/nbt"
 )
@@ -222,6 +224,19 @@ type decodeErr struct {
 	err      error
 }
 
+// Error builds the text in one pass over the chain of nested entries (formatting it
+// recursively is quadratic in the nesting depth).
 func (d decodeErr) Error() string {
-	return fmt.Sprintf("fail to decode tag %q: %v", d.decoding, d.err)
+	var sb strings.Builder
+	var err error = d
+	for {
+		de, ok := err.(decodeErr)
+		if !ok {
+			break
+		}
+		sb.WriteString("fail to decode tag " + strconv.Quote(de.decoding) + ": ")
+		err = de.err
+	}
+	sb.WriteString(err.Error())
+	return sb.String()
 }
